@@ -12,6 +12,7 @@ def run(tier):
     reps.append(OW.frame_report())
     reps += OW.fg_frame_reports()
     reps.append(OW.schedule_report())
+    reps.append(OW.canonical_regions_report())
     for rel, q, c in OW.RG_PROJECT_ITEMS:
         reps.append(deductive.verify_function(rel, q, c, hooks=OW.project_hooks(c), prefix='%s::%s[in-clique answers]' % (rel, q)))
     # the sum-product message equations of loopy belief propagation, value-level (pv/contracts/fgbp.py)
